@@ -73,6 +73,7 @@ struct Fiber
 struct SyncObj
 {
   int owner = -1;        // mutex / write lock owner
+  int depth = 0;         // extra acquisitions of a recursive mutex by its owner
   int readers = 0;       // rwlock
   VC vc;                 // release clock
   int state = 0;         // once / guard: 0 fresh, 1 in progress, 2 done
@@ -372,11 +373,12 @@ void unmodelled(const char * what)
 }
 
 // ---------------------------------------------------------------- simulated locks
-int mutexLock(uintptr_t m, bool tryOnly)
+int mutexLock(uintptr_t m, bool tryOnly, bool recursive = false)
 {
   yieldPoint();
   for (;; ) {
     SyncObj & s = syncObj(m);
+    if (recursive && s.owner == gCur) {++s.depth; return 0;}   // PTHREAD_MUTEX_RECURSIVE (std::recursive_mutex)
     if (s.owner < 0 && s.readers == 0) {
       s.owner = gCur; acquireFrom(s); ++gF[gCur].locksHeld; ++gStats.lockAcquires; syncEvent(1, m);
       return 0;
@@ -395,6 +397,7 @@ int mutexLock(uintptr_t m, bool tryOnly)
 int mutexUnlock(uintptr_t m)
 {
   SyncObj & s = syncObj(m);
+  if (s.owner == gCur && s.depth > 0) {--s.depth; return 0;}
   if (s.owner == gCur) {s.owner = -1; releaseTo(s); --gF[gCur].locksHeld; syncEvent(2, m); wake(m);} else if (s.readers > 0) {
     --s.readers; releaseTo(s); --gF[gCur].locksHeld; syncEvent(2, m); if (s.readers == 0) {wake(m);}
   }
@@ -544,13 +547,13 @@ int __wrap_pthread_mutex_lock(pthread_mutex_t * m)
 {
   if (!gActive || gInRt) {return __real_pthread_mutex_lock(m);}
   RtGuard guard;
-  return mutexLock((uintptr_t)m, false);
+  return mutexLock((uintptr_t)m, false, (m->__data.__kind & 3) == PTHREAD_MUTEX_RECURSIVE_NP);
 }
 int __wrap_pthread_mutex_trylock(pthread_mutex_t * m)
 {
   if (!gActive || gInRt) {return __real_pthread_mutex_trylock(m);}
   RtGuard guard;
-  return mutexLock((uintptr_t)m, true);
+  return mutexLock((uintptr_t)m, true, (m->__data.__kind & 3) == PTHREAD_MUTEX_RECURSIVE_NP);
 }
 int __wrap_pthread_mutex_unlock(pthread_mutex_t * m)
 {
